@@ -401,6 +401,13 @@ func c19Run(c *core.Ctx) *core.Result {
 		if n.Kind != "delete" {
 			seen[n.Path]++
 		}
+		if e := old.Get(".fsutil-metadata"); n.Path == ".fsutil-metadata" && e != nil && e.Type == tree.File {
+			// the listing is the receiver's own bookkeeping, written outside
+			// the writer: an event for it (the delete of the one an earlier
+			// receive left - a regular file -, which exists again afterwards) describes nothing
+			// that happened to the transferred tree
+			r.ViolateD("listing-file-reported", det, "%s: the change callback was called with %s %q: the listing file is not an entry of the transfer", desc, n.Kind, n.Path)
+		}
 	}
 	for p, n := range seen {
 		if n > 1 {
